@@ -3,6 +3,7 @@ CONSTANTS
   NSet = {0, 1, 2, 3, 4, 5, 6, 7, 8, 9}
   ClsSet = {"b2", "b4", "b8", "b16", "b32", "b64", "c64", "c128", "bool", "string"}
   MaxWrites = 2
+  WritePats = {"zeros", "ones", "ramp", "rev", "alt"}
   EmitOn = TRUE
 INIT Init
 NEXT Next
